@@ -157,6 +157,9 @@ def seq_concat(i, a, b, node):
                                              z3.Select(c_new, k) == z3.If(k < sa.length, z3.Select(ca, k),
                                                                           z3.Select(cb, k - sa.length))),
                              patterns=[z3.Select(c_new, k)]))
+        # back-triggers: a fact about an element of either part reaches the concatenation
+        ctx.assume(z3.ForAll([k], z3.Implies(z3.And(k >= 0, k < sa.length), z3.Select(c_new, k) == z3.Select(ca, k)), patterns=[z3.Select(ca, k)]))
+        ctx.assume(z3.ForAll([k], z3.Implies(z3.And(k >= 0, k < sb.length), z3.Select(c_new, k + sa.length) == z3.Select(cb, k)), patterns=[z3.Select(cb, k)]))
     w = a.elem_wrap if isinstance(a, SymList) else b.elem_wrap
     return SymList(Seq(n, cols), w)
 
